@@ -949,4 +949,298 @@ theorem declared_then_bound (p : List String) (a : Nat) (v : Val) (hp : p ≠ []
           (by simp [lookup]) (setValue_ne_nil _ _ _ (by simp)) (by simp)]
         exact ih2
 
+/-- what the code computes for a path, for ANY binding list: below an identifier the container (if
+some longer name exists) wins over the value -/
+def specResG (bs : List (List String × Val)) : List String → Option Res
+  | [] => none
+  | h :: t =>
+      if !headBound bs h then none
+      else if (sub bs h).isEmpty then
+        match boundAt bs [h] with
+        | some v => t.foldlM memberDot (.val v)
+        | none => none
+      else if t.isEmpty then some (.nc (loadValues [] (sub bs h)))
+      else specResG (sub bs h) t
+
+/-- the walk through the loaded containers, characterised for every binding list -/
+theorem walk_loadedG (p : List String) : ∀ (bs : List (List String × Val)), NonEmptyNames bs →
+    p ≠ [] → walk (loadValues [] bs) p = specResG bs p := by
+  induction p with
+  | nil => intro _ _ h; exact absurd rfl h
+  | cons h t ih =>
+    intro bs hne _
+    simp only [walk, specResG, lookup_loaded]
+    by_cases hb : headBound bs h = true
+    · simp only [hb, ↓reduceIte, Option.bind_some, Bool.not_true, Bool.false_eq_true]
+      cases hs : sub bs h with
+      | nil =>
+        -- only `[h]` itself is bound
+        have hv : (boundAt bs [h]).isSome = true := by
+          obtain ⟨t', w, hm⟩ := headBound_iff.mp hb
+          cases t' with
+          | nil => exact boundAt_isSome_iff.mpr ⟨w, hm⟩
+          | cons f t'' =>
+            have : (f :: t'', w) ∈ sub bs h := mem_sub.mpr ⟨by simp, hm⟩
+            simp [hs] at this
+        obtain ⟨v, hv⟩ := Option.isSome_iff_exists.mp hv
+        simp [hv, loadValues, Node.result]
+      | cons x xs =>
+        have hk := loaded_nonempty (sub bs h) (by simp [hs]) (sub_nonEmpty bs h)
+        rw [hs] at hk
+        simp only [Node.result, hk, Bool.not_false, ↓reduceIte, List.isEmpty_cons, Bool.false_eq_true]
+        cases t with
+        | nil => simp [List.foldlM]
+        | cons f t' =>
+          have := ih (sub bs h) (sub_nonEmpty bs h) (by simp)
+          rw [hs] at this
+          simp only [List.isEmpty_cons, Bool.false_eq_true, ↓reduceIte, ← this, walk, List.foldlM_cons, memberDot]
+          cases lookup f (loadValues [] (x :: xs)) <;> simp
+    · simp only [Bool.not_eq_true] at hb
+      simp [hb]
+
+/-- a bound prefix that no other name extends decides the outcome: field selections from its value
+(whatever is bound above it: there the containers win) -/
+theorem specResG_bound (p : List String) : ∀ (bs : List (List String × Val)) (k0 : Nat) (v : Val),
+    0 < k0 → k0 ≤ p.length → boundAt bs (p.take k0) = some v →
+    (∀ b, b ∈ bs → p.take k0 <+: b.1 → b.1 = p.take k0) →
+    specResG bs p = (p.drop k0).foldlM memberDot (.val v) := by
+  induction p with
+  | nil => intro bs k0 v h0 hk; simp at hk; omega
+  | cons h t ih =>
+    intro bs k0 v h0 hk hv hclean
+    have hmem := boundAt_some_mem hv
+    cases k0 with
+    | zero => omega
+    | succ k =>
+      simp only [List.take_succ_cons] at hv hmem hclean
+      have hb : headBound bs h = true := headBound_iff.mpr ⟨_, _, hmem⟩
+      simp only [specResG, hb, Bool.not_true, Bool.false_eq_true, ↓reduceIte, List.drop_succ_cons]
+      cases k with
+      | zero =>
+        simp only [List.take_zero] at hv hclean
+        have hsub : sub bs h = [] := by
+          cases hs : sub bs h with
+          | nil => rfl
+          | cons x xs =>
+            exfalso
+            rcases x with ⟨t', w⟩
+            have hm : (t', w) ∈ sub bs h := by simp [hs]
+            obtain ⟨hne', hm'⟩ := mem_sub.mp hm
+            have := hclean _ hm' (by simp)
+            simp at this
+            exact hne' this
+        simp [hsub, hv]
+      | succ k' =>
+        have hk' : k' + 1 ≤ t.length := by simpa using hk
+        have htk : t.take (k'+1) ≠ [] := by
+          cases t with
+          | nil => simp at hk'
+          | cons f t' => simp
+        have ht : t ≠ [] := by intro hc; subst hc; simp at hk'
+        have hsub : (sub bs h).isEmpty = false := by
+          have : (t.take (k'+1), v) ∈ sub bs h := mem_sub.mpr ⟨htk, hmem⟩
+          cases hs : sub bs h with
+          | nil => simp [hs] at this
+          | cons _ _ => rfl
+        have hte : t.isEmpty = false := by cases t <;> simp_all
+        rw [boundAt_sub bs h _ htk] at hv
+        simp only [hsub, hte, Bool.false_eq_true, ↓reduceIte]
+        apply ih (sub bs h) (k'+1) v (by omega) hk' hv
+        intro b hbm hpre
+        rcases b with ⟨q, w⟩
+        obtain ⟨_, hm'⟩ := mem_sub.mp hbm
+        have := hclean _ hm' ((List.prefix_cons_inj h).mpr hpre)
+        simpa using this
+
+/-- without any bound prefix the walk finds a namespace (exactly when some name goes on) or nothing -/
+theorem specResG_unbound (p : List String) : ∀ (bs : List (List String × Val)),
+    NonEmptyNames bs → p ≠ [] → (∀ k, 0 < k → k ≤ p.length → boundAt bs (p.take k) = none) →
+    ((specResG bs p).isSome = bindsUnder bs p) ∧ (∀ r, specResG bs p = some r → r.toVal = some .ncobj) := by
+  induction p with
+  | nil => intro _ _ h; exact absurd rfl h
+  | cons h t ih =>
+    intro bs hne _ hnb
+    have h1 : boundAt bs [h] = none := by simpa using hnb 1 (by omega) (by simp)
+    by_cases hb : headBound bs h = true
+    · have hsub : (sub bs h).isEmpty = false := by
+        obtain ⟨t', w, hm⟩ := headBound_iff.mp hb
+        cases t' with
+        | nil =>
+          have : (boundAt bs [h]).isSome = true := boundAt_isSome_iff.mpr ⟨w, hm⟩
+          simp [h1] at this
+        | cons f t'' =>
+          have : (f :: t'', w) ∈ sub bs h := mem_sub.mpr ⟨by simp, hm⟩
+          cases hs : sub bs h with
+          | nil => simp [hs] at this
+          | cons _ _ => rfl
+      simp only [specResG, hb, Bool.not_true, Bool.false_eq_true, ↓reduceIte, hsub]
+      cases t with
+      | nil =>
+        simp only [List.isEmpty_nil, ↓reduceIte, Option.isSome_some, bindsUnder_single, hb, true_and]
+        intro r hr
+        simp only [Option.some.injEq] at hr
+        subst hr
+        rfl
+      | cons f t' =>
+        simp only [List.isEmpty_cons, Bool.false_eq_true, ↓reduceIte]
+        rw [bindsUnder_cons bs h (f :: t') (by simp)]
+        apply ih (sub bs h) (sub_nonEmpty bs h) (by simp)
+        intro k hk0 hk
+        have := hnb (k+1) (by omega) (by simpa using hk)
+        rw [List.take_succ_cons, boundAt_sub bs h _ (by cases k <;> simp_all)] at this
+        exact this
+    · simp only [Bool.not_eq_true] at hb
+      simp only [specResG, hb, Bool.not_false, ↓reduceIte, Option.isSome_none]
+      refine ⟨?_, by simp⟩
+      symm
+      apply Bool.eq_false_iff.mpr
+      intro hc
+      simp only [bindsUnder, List.any_eq_true, List.isPrefixOf_iff_prefix] at hc
+      obtain ⟨b, hbm, s, hs⟩ := hc
+      have : headBound bs h = true := by
+        rcases b with ⟨q, w⟩
+        simp only at hs
+        subst hs
+        exact headBound_iff.mpr ⟨_, _, by simpa using hbm⟩
+      simp [hb] at this
+
+
+/-- a level is found exactly when some name starts with the path, provided no proper prefix of the path
+is itself bound -/
+theorem specResG_isSome (p : List String) : ∀ (bs : List (List String × Val)),
+    NonEmptyNames bs → p ≠ [] → (∀ k, 0 < k → k < p.length → boundAt bs (p.take k) = none) →
+    (specResG bs p).isSome = bindsUnder bs p := by
+  induction p with
+  | nil => intro _ _ h; exact absurd rfl h
+  | cons h t ih =>
+    intro bs hne _ hnb
+    by_cases hb : headBound bs h = true
+    · cases t with
+      | nil =>
+        simp only [specResG, hb, Bool.not_true, Bool.false_eq_true, ↓reduceIte, List.isEmpty_nil,
+          bindsUnder_single]
+        cases hs : sub bs h with
+        | nil =>
+          have hv : (boundAt bs [h]).isSome = true := by
+            obtain ⟨t', w, hm⟩ := headBound_iff.mp hb
+            cases t' with
+            | nil => exact boundAt_isSome_iff.mpr ⟨w, hm⟩
+            | cons f t'' =>
+              have : (f :: t'', w) ∈ sub bs h := mem_sub.mpr ⟨by simp, hm⟩
+              simp [hs] at this
+          obtain ⟨v, hv⟩ := Option.isSome_iff_exists.mp hv
+          simp [hv, List.foldlM]
+        | cons x xs => simp
+      | cons f t' =>
+        have h1 : boundAt bs [h] = none := by simpa using hnb 1 (by omega) (by simp)
+        have hsub : (sub bs h).isEmpty = false := by
+          obtain ⟨t'', w, hm⟩ := headBound_iff.mp hb
+          cases t'' with
+          | nil =>
+            have : (boundAt bs [h]).isSome = true := boundAt_isSome_iff.mpr ⟨w, hm⟩
+            simp [h1] at this
+          | cons g t''' =>
+            have : (g :: t''', w) ∈ sub bs h := mem_sub.mpr ⟨by simp, hm⟩
+            cases hs : sub bs h with
+            | nil => simp [hs] at this
+            | cons _ _ => rfl
+        simp only [specResG, hb, Bool.not_true, Bool.false_eq_true, ↓reduceIte, hsub, List.isEmpty_cons]
+        rw [bindsUnder_cons bs h (f :: t') (by simp)]
+        apply ih (sub bs h) (sub_nonEmpty bs h) (by simp)
+        intro k hk0 hk
+        have := hnb (k+1) (by omega) (by simpa using hk)
+        rw [List.take_succ_cons, boundAt_sub bs h _ (by cases k <;> simp_all)] at this
+        exact this
+    · simp only [Bool.not_eq_true] at hb
+      simp only [specResG, hb, Bool.not_false, ↓reduceIte, Option.isSome_none]
+      symm
+      apply Bool.eq_false_iff.mpr
+      intro hc
+      simp only [bindsUnder, List.any_eq_true, List.isPrefixOf_iff_prefix] at hc
+      obtain ⟨b, hbm, s, hs⟩ := hc
+      have : headBound bs h = true := by
+        rcases b with ⟨q, w⟩
+        simp only at hs
+        subst hs
+        exact headBound_iff.mpr ⟨_, _, by simpa using hbm⟩
+      simp [hb] at this
+
+/-- the binding the specification selects at `level` (its longest bound prefix) is not extended by
+another bound name — the complement of the D19 zone, stated on exactly the binding that is used -/
+def CleanAt (bs : List (List String × Val)) (head : String) (rest : List String) (level : List String) : Prop :=
+  ∀ k v, longestBound bs (level ++ head :: rest) (level.length + 1) (level ++ head :: rest).length = some (k, v) →
+    ∀ b, b ∈ bs → (level ++ head :: rest).take k <+: b.1 → b.1 = (level ++ head :: rest).take k
+
+theorem resolve_eq_denote_clean (r : Runner) (bs : List (List String × Val)) (pkg : List String) (head : String)
+    (rest : List String) (hne : NonEmptyNames bs)
+    (hclean : ∀ L, L <+: pkg → CleanAt bs head rest L)
+    (hpkg : ∀ b, b ∈ bs → ¬ b.1 <+: pkg)
+    (hns : ∀ L, L <+: pkg → ¬ namespaceOnly bs (L ++ head :: rest)) :
+    eval r pkg [loadValues [] bs] (.ref head rest) = denote bs pkg head rest := by
+  rw [denote_eq, eval_ref, resolveName_single]
+  have hshort : ∀ L, L <+: pkg → ∀ (t : List String) k, k ≤ L.length → boundAt bs ((L ++ t).take k) = none := by
+    intro L hL t k hk
+    cases hb : boundAt bs ((L ++ t).take k) with
+    | none => rfl
+    | some w =>
+      exfalso
+      have hm := boundAt_some_mem hb
+      have : (L ++ t).take k = L.take k := by
+        rw [List.take_append_of_le_length hk]
+      rw [this] at hm
+      exact hpkg _ hm ((List.take_prefix k L).trans hL)
+  apply findSome_align
+  · intro L hLm
+    have hL := mem_targets hLm
+    rw [walk_loadedG _ bs hne (by simp)]
+    apply specResG_isSome _ bs hne (by simp)
+    intro k hk0 hk
+    exact hshort L hL [head] k (by simp at hk; omega)
+  · intro L hLm hc
+    have hL := mem_targets hLm
+    have hfull : L ++ head :: rest = (L ++ [head]) ++ rest := by simp
+    have hw : ((walk (loadValues [] bs) (L ++ [head])).bind fun r0 => (rest.foldlM memberDot r0).bind Res.toVal) =
+        (walk (loadValues [] bs) (L ++ head :: rest)).bind Res.toVal := by
+      have hwa := walk_append (loadValues [] bs) (L ++ [head]) rest (by simp)
+      rw [← hfull] at hwa
+      rw [hwa]
+      cases walk (loadValues [] bs) (L ++ [head]) <;> simp
+    rw [hw, walk_loadedG _ bs hne (by simp)]
+    simp only [levelSpec]
+    cases hlb : longestBound bs (L ++ head :: rest) (L.length + 1) (L ++ head :: rest).length with
+    | some kv =>
+      rcases kv with ⟨k0, v⟩
+      obtain ⟨_, h0, hk, hv⟩ := longestBound_eq_some hlb
+      rw [specResG_bound _ bs k0 v h0 hk hv (hclean L hL k0 v hlb)]
+      exact foldlM_val _ v
+    | none =>
+      have hun : ∀ k, 0 < k → k ≤ (L ++ head :: rest).length → boundAt bs ((L ++ head :: rest).take k) = none := by
+        intro k hk0 hk
+        by_cases hkl : k ≤ L.length
+        · exact hshort L hL (head :: rest) k hkl
+        · exact longestBound_eq_none hlb k (by omega) hk0 hk
+      obtain ⟨h1, h2⟩ := specResG_unbound (L ++ head :: rest) bs hne (by simp) hun
+      cases hs : specResG bs (L ++ head :: rest) with
+      | none => rfl
+      | some res =>
+        exfalso
+        have hbu : bindsUnder bs (L ++ head :: rest) = true := by rw [← h1, hs]; rfl
+        simp only [bindsUnder, List.any_eq_true, List.isPrefixOf_iff_prefix] at hbu
+        obtain ⟨b, hbm, hpre⟩ := hbu
+        apply hns L hL
+        refine ⟨b, hbm, hpre, ?_⟩
+        intro heq
+        have : (boundAt bs (L ++ head :: rest)).isSome = true :=
+          boundAt_isSome_iff.mpr ⟨b.2, by rw [heq]; exact hbm⟩
+        have hx := hun (L ++ head :: rest).length (by simp; omega) (Nat.le_refl _)
+        simp only [List.take_length] at hx
+        simp [hx] at this
+
+/-- prefix-free binding lists are clean at every level -/
+theorem cleanAt_of_prefixFree {bs : List (List String × Val)} (hpf : PrefixFree bs) (head : String)
+    (rest : List String) (L : List String) : CleanAt bs head rest L := by
+  intro k v hlb b hbm hpre
+  obtain ⟨_, _, _, hv⟩ := longestBound_eq_some hlb
+  exact (hpf _ (boundAt_some_mem hv) _ hbm hpre).symm
+
 end Cel.Names
